@@ -10,6 +10,7 @@ package main
 // Derived from the function's own parameter list; no annotation.
 
 import (
+	"go/types"
 	"os"
 	"fmt"
 	"go/constant"
@@ -359,5 +360,75 @@ func (pc *pCtx) p10LockOrder(s *pSite) {
 	if n == 0 {
 		pc.add(props, fmt.Sprintf("P10/%s/downstream-calls-are-made-without-the-teardown-lock", s.Name),
 			"no notification is delivered downstream while holding a lock that the teardown takes", true, "", pc.pos(s.CtorCall.Pos()))
+	}
+}
+
+// P12: sync/atomic.Value panics when a Store (Swap, CompareAndSwap) brings a value whose dynamic type differs from the
+// one stored first. Every store into one atomic.Value cell of a site must therefore wrap a value of one concrete static
+// type; a store of an interface-typed value (a context.Context, an error) has a dynamic type the code does not control.
+func (pc *pCtx) p12AtomicValue(s *pSite) {
+	props := []string{"C04", "C09"}
+	type storeInfo struct {
+		typ  string
+		pos  string
+		open bool // the stored operand is itself an interface value
+	}
+	cells := map[ssa.Value][]storeInfo{}
+	var order []ssa.Value
+	for _, fn := range s.Closures {
+		for _, b := range fn.Blocks {
+			for _, ins := range b.Instrs {
+				call, ok := ins.(*ssa.Call)
+				if !ok {
+					continue
+				}
+				f := call.Common().StaticCallee()
+				if f == nil || pkgPathOf(f) != "sync/atomic" || f.Signature.Recv() == nil || recvTypeName(f) != "Value" {
+					continue
+				}
+				if !(f.Name() == "Store" || f.Name() == "Swap" || f.Name() == "CompareAndSwap") || len(call.Common().Args) < 2 {
+					continue
+				}
+				cell := s.root(call.Common().Args[0])
+				v := call.Common().Args[len(call.Common().Args)-1]
+				si := storeInfo{pos: pc.pos(ins.Pos())}
+				switch t := v.(type) {
+				case *ssa.MakeInterface:
+					if types.IsInterface(t.X.Type()) {
+						si.open = true
+						si.typ = t.X.Type().String()
+					} else {
+						si.typ = t.X.Type().String()
+					}
+				default:
+					si.open = true
+					si.typ = v.Type().String()
+				}
+				if _, seen := cells[cell]; !seen {
+					order = append(order, cell)
+				}
+				cells[cell] = append(cells[cell], si)
+			}
+		}
+	}
+	for _, cell := range order {
+		ok := true
+		note := ""
+		first := ""
+		for _, si := range cells[cell] {
+			if si.open {
+				ok = false
+				note = fmt.Sprintf("the value stored at %s has the interface type %s: its dynamic type is whatever the caller passed, and a Store of a different dynamic type than the first one panics", si.pos, si.typ)
+				break
+			}
+			if first == "" {
+				first = si.typ
+			} else if si.typ != first {
+				ok = false
+				note = fmt.Sprintf("values of type %s and %s are stored into the same atomic.Value (%s)", first, si.typ, si.pos)
+			}
+		}
+		pc.add(props, fmt.Sprintf("P12/%s/atomic-value:%s/stores-one-concrete-type", s.Name, cellName(cell)),
+			"every Store into one sync/atomic.Value brings a value of the same concrete type (a Store of another dynamic type panics)", ok, note, pc.pos(cell.Pos()))
 	}
 }
